@@ -989,7 +989,13 @@ where
                 self.handle_self_update(Incarnation::default(), State::Down, &mut runtime)?;
             }
 
-            if self.config.notify_down_members {
+            // Two members that consider each other down would otherwise
+            // bounce TurnUndead back and forth forever: only answer one
+            // with another if we managed to come back with a renewed identity
+            let undead_reply_to_undead = message == Message::TurnUndead
+                && self.connection_state == ConnectionState::Undead;
+
+            if self.config.notify_down_members && !undead_reply_to_undead {
                 self.send_message(src, Message::TurnUndead, runtime)?;
             }
 
